@@ -581,5 +581,7 @@ CHECKS['C03'].update({
     'text': "WINDOWS RULES (C03win): C03_upper_win / C03_hidden_never_win / C03_forcewin_fn — C03_upper_faithful_sharp transferred through C17win.win_eq_unix_ci (separator "
             "normalisation never touches a leading dot): under FORCEWIN without DOTMATCH (fnmatch mode, every flag word) a name beginning with `.` is matched only if the "
             "pattern text begins with a written dot or a leaky extended group, for every pattern text without backslash / bracket / drive-like beginning; applied_star_a "
-            "(all hypotheses discharged for `*a`), nonvacuous. " + CHECKS['C03']['text'],
+            "(all hypotheses discharged for `*a`), nonvacuous; path mode: C03_upper_path_win / C03_dotdir_path_win (a hidden piece or `.`/`..` after EITHER separator), "
+            "C03winlower: C03_read_sandwich_win / _forcewin (Must(normalised s) -> FORCEWIN regex accepts s -> May(normalised s), every subject — the statement the "
+            "search windows-rules-sandwich evaluates on the real code), C03_lower_win (fnmatch, written dot first: exactly the documented language). " + CHECKS['C03']['text'],
 })
